@@ -500,3 +500,55 @@ def large(case, ctx):
         if pc != (r0, r1, c0, c1) or np.max(np.abs(pr.data - want)) > 1e-12 * (np.max(np.abs(want)) + 1):
             raise Violation("C06.large.mul", f"product of fields {fs}@{off} and {g.data.shape}@{g.offset} differs from the "
                                              f"pointwise product on the common samples")
+
+
+# --- fields of more than a million samples -------------------------------------------------------------------
+
+@st.composite
+def mega_field_case(draw, tier):
+    fs = draw(gen.mega_shape())
+    return {"fs": list(fs), "dt": [draw(st.integers(-60, 60)), draw(st.integers(-60, 60))],
+            "off": [draw(st.integers(-80, 80)), draw(st.integers(-80, 80))], "seed": draw(st.integers(0, 2**31 - 1)),
+            "intensity": draw(st.booleans()), "weight": draw(st.sampled_from([1, -2.5, 0.125]))}
+
+
+@hyp("C06", "mega", lambda tier: mega_field_case(tier),
+     "insert and product with fields of more than 2^20 samples against direct index arithmetic", examples=(3, 12),
+     budget_s=(150, 700))
+def mega(case, ctx):
+    fs = tuple(case["fs"])
+    ts = (fs[0] + case["dt"][0], fs[1] + case["dt"][1])
+    off = tuple(case["off"])
+    rng = np.random.default_rng(case["seed"])
+    data = rng.normal(size=fs) + 1j * rng.normal(size=fs)
+    f = Field(data=data, offset=list(off))
+    ctx.tag("mega", "intensity" if case["intensity"] else "complex")
+    ctx.nontrivial_if(True)
+    tgt = np.zeros(ts, dtype=float if case["intensity"] else complex)
+    # expected: sample (i, j) of the field sits at target index i - fs//2 + off + ts//2
+    r = np.arange(fs[0]) - fs[0] // 2 + off[0] + ts[0] // 2
+    c = np.arange(fs[1]) - fs[1] // 2 + off[1] + ts[1] // 2
+    okr, okc = (r >= 0) & (r < ts[0]), (c >= 0) & (c < ts[1])
+    exp = tgt.copy()
+    src = np.abs(data) ** 2 if case["intensity"] else data
+    exp[np.ix_(r[okr], c[okc])] += case["weight"] * src[np.ix_(okr, okc)]
+    with lentil_call("C06.mega.insert", f"insert(field {fs} at {off} into {ts})"):
+        out = lfield.insert(f, tgt, intensity=case["intensity"], weight=case["weight"])
+    if out.shape != exp.shape or float(np.max(np.abs(out - exp))) > 1e-12 * float(np.max(np.abs(src))):
+        raise Violation("C06.mega.insert", f"insert of a {fs} field at offset {off} into a {ts} array differs from direct "
+                                           f"index arithmetic")
+    g = Field(data=rng.normal(size=(fs[0] - 7, fs[1] + 5)) + 0j, offset=[off[0] + 3, off[1] - 2])
+    with lentil_call("C06.mega.mul", "Field * Field"):
+        prod = f * g
+    Lr, Lc = fs[0] + 400, fs[1] + 400           # canvas just large enough for both operands at their offsets
+
+    def emb(fld):
+        z = np.zeros((Lr, Lc), dtype=complex)
+        sh, o = fld.data.shape, fld.offset
+        r0, c0 = Lr // 2 - sh[0] // 2 + int(o[0]), Lc // 2 - sh[1] // 2 + int(o[1])
+        z[r0:r0 + sh[0], c0:c0 + sh[1]] = fld.data
+        return z
+    want = emb(f) * emb(g)
+    if float(np.max(np.abs(emb(prod) - want))) > 1e-12 * float(np.max(np.abs(want))):
+        raise Violation("C06.mega.mul", f"product of {fs} and {g.data.shape} fields differs from the pointwise product of "
+                                        f"their embeddings")
